@@ -137,12 +137,28 @@ theorem asm_wf (i : Instr) (r : Raw) (hi : i.WF) (h : asm i = some r) : r.WF := 
 /-- `Disassemble(Assemble(i)) = i` holds EXACTLY for the canonical typed values. -/
 theorem disasm_asm_iff (i : Instr) (r : Raw) (hi : i.WF) (h : asm i = some r) :
     disasm r = i ↔ canonTyped i = true := by
-  constructor
-  · intro hd
-    rw [← hd]
-    exact canonTyped_disasm r (asm_wf i r hi h)
-  · intro hc
-    exact disasm_asm_of_canon i r hi hc h
+  have hr := asm_wf i r hi h
+  by_cases hraw : isRaw i = true
+  · -- pass-through RawInstruction values: Assemble is the identity
+    cases i <;> simp [isRaw] at hraw
+    rename_i r'
+    simp [asm] at h; subst h
+    simp only [canonTyped]
+    constructor
+    · intro hd; rw [hd]; rfl
+    · intro hc
+      cases hd : disasm r' <;> simp [hd, isRaw] at hc
+      rw [disasm_raw_eq r' _ hr hd]
+  · have hnr : isRaw i = false := by simpa using hraw
+    constructor
+    · intro hd
+      rcases disasm_cases r with ⟨h1, _⟩ | ⟨h1, _⟩
+      · rw [← hd, h1]; exact canonTyped_disasm r hr
+      · rw [h1] at hd; rw [← hd] at hnr; simp [isRaw] at hnr
+    · intro hc
+      have hcore := disasm_asm_of_canon i r hi hnr hc h
+      unfold disasm
+      simp [hcore, hnr, h]
 
 /-- The first half of C48 as stated: every accepted non-raw instruction value survives. -/
 def RoundTripTypedStatement : Prop :=
@@ -151,7 +167,7 @@ def RoundTripTypedStatement : Prop :=
 /-- Proved part of the first half: every accepted CANONICAL value survives. Missing for the full
 statement: the non-canonical values, on which it is false (`typed_full_false`). -/
 theorem disasm_asm_partial (i : Instr) (r : Raw) (hi : i.WF) (hc : canonTyped i = true) (h : asm i = some r) :
-    disasm r = i := disasm_asm_of_canon i r hi hc h
+    disasm r = i := (disasm_asm_iff i r hi h).mpr hc
 
 /-- Witness 1 (jump polarity): `JumpIf{Cond: JumpEqual, Val: 42, SkipTrue: 0, SkipFalse: 3}` assembles to
 `{0x15,0,3,42}`, which disassembles to `JumpIf{Cond: JumpNotEqual, Val: 42, SkipTrue: 3}`. -/
@@ -159,54 +175,66 @@ theorem witness_typed_jump :
     asm (.jumpIf jumpEqual 42 0 3) = some ⟨0x15, 0, 3, 42⟩ ∧
     disasm ⟨0x15, 0, 3, 42⟩ = .jumpIf jumpNotEqual 42 3 0 := by decide
 
-/-- Witness 2 (unchecked `ALUOp`): `ALUOpConstant{Op: 0x80, Val: 5}` assembles to the `neg` opcode with K=5 and
-comes back as `NegateA{}`; `ALUOpConstant{Op: 8}` comes back as `ALUOpX{Op: ALUOpAdd}`. -/
+/-- Witness 2 (unchecked `ALUOp`, cannot be rejected without breaking the package's own
+TestVMALUOpUnknown): `ALUOpConstant{Op: 0x80, Val: 5}` assembles to the `neg` opcode with K=5, which is not a
+canonical encoding and comes back as the RawInstruction; likewise `ALUOpConstant{Op: 8}`. -/
 theorem witness_typed_alu :
-    asm (.aluOpConstant 0x80 5) = some ⟨0x84, 0, 0, 5⟩ ∧ disasm ⟨0x84, 0, 0, 5⟩ = .negateA ∧
-    asm (.aluOpConstant 8 5) = some ⟨0x0c, 0, 0, 5⟩ ∧ disasm ⟨0x0c, 0, 0, 5⟩ = .aluOpX aluOpAdd := by decide
+    asm (.aluOpConstant 0x80 5) = some ⟨0x84, 0, 0, 5⟩ ∧ disasm ⟨0x84, 0, 0, 5⟩ = .raw ⟨0x84, 0, 0, 5⟩ ∧
+    asm (.aluOpConstant 8 5) = some ⟨0x0c, 0, 0, 5⟩ ∧ disasm ⟨0x0c, 0, 0, 5⟩ = .raw ⟨0x0c, 0, 0, 5⟩ := by decide
 
-/-- Witness 3 (extension window): `LoadAbsolute{Off: 0xfffff004, Size: 4}` comes back as
-`LoadExtension{Num: ExtType}`; `LoadExtension{Num: 4096}` comes back as `LoadAbsolute{Off: 0, Size: 4}`. -/
+/-- Witness 3 (extension window, a supported alias: `LoadAbsolute{Off: 0xfffff038, Size: 4}.String()` is
+"ld #rand"): `LoadAbsolute{Off: 0xfffff004, Size: 4}` comes back as `LoadExtension{Num: ExtType}`. -/
 theorem witness_typed_ext :
     asm (.loadAbsolute 0xfffff004 4) = some ⟨0x20, 0, 0, 0xfffff004⟩ ∧
-    disasm ⟨0x20, 0, 0, 0xfffff004⟩ = .loadExtension 4 ∧
-    asm (.loadExtension 4096) = some ⟨0x20, 0, 0, 0⟩ ∧ disasm ⟨0x20, 0, 0, 0⟩ = .loadAbsolute 0 4 := by decide
+    disasm ⟨0x20, 0, 0, 0xfffff004⟩ = .loadExtension 4 := by decide
 
 theorem typed_full_false : ¬ RoundTripTypedStatement := by
   intro h
   have := h (.jumpIf jumpEqual 42 0 3) ⟨0x15, 0, 3, 42⟩ (by decide) (by decide) (by decide)
   exact absurd this (by decide)
 
-/-! ### raw → typed → raw -/
+/-- Repaired (fix: bpf LoadExtension range): an `Extension` outside [0, 0xfff] is rejected by `Assemble`
+instead of wrapping into an absolute load (old witness `LoadExtension{Num: 4096}`). -/
+theorem asm_loadExtension_range (num : Int) (r : Raw) (h : asm (.loadExtension num) = some r) :
+    0 ≤ num ∧ num < 4096 := by
+  simp only [asm] at h
+  split at h
+  · simp at h
+  · rename_i hc; simp at hc; omega
+example : asm (.loadExtension 4096) = none ∧ asm (.loadExtension (-1)) = none := by decide
 
-/-- `Assemble(Disassemble(r)) = r` holds EXACTLY for the canonical raw instructions
-(this includes the undecodable ones, which `Disassemble` passes through). -/
-theorem asm_disasm_iff (r : Raw) (hr : r.WF) : asm (disasm r) = some r ↔ canonRaw r = true := by
-  constructor
-  · intro h
-    exact canonRaw_asm (disasm r) r (disasm_wf r hr) (canonTyped_disasm r hr) h
-  · exact asm_disasm_of_canon r hr
+/-! ### raw → typed → raw -/
 
 /-- The second half of C48 as stated: every raw instruction that decodes to a known type reassembles to itself. -/
 def RoundTripRawStatement : Prop :=
   ∀ r : Raw, r.WF → isRaw (disasm r) = false → asm (disasm r) = some r
 
-/-- Proved part of the second half: canonical raw instructions. Missing for the full statement: the
-non-canonical encodings, on which it is false (`raw_full_false`). -/
-theorem asm_disasm_partial (r : Raw) (hr : r.WF) (hc : canonRaw r = true) : asm (disasm r) = some r :=
-  asm_disasm_of_canon r hr hc
+/-- Repaired (fix: bpf Disassemble non-canonical): `Assemble(Disassemble(r)) = r` for EVERY raw
+instruction (decoded or passed through). -/
+theorem asm_disasm (r : Raw) (hr : r.WF) : asm (disasm r) = some r := by
+  rcases disasm_cases r with ⟨h1, h2 | h2⟩ | ⟨h1, _⟩
+  · have hg := good_disasm r hr
+    rw [h1]
+    cases hc : disasmCore r <;> simp [hc, isRaw] at h2
+    rw [hc] at hg
+    simp only [good] at hg
+    subst hg; simp [asm]
+  · rw [h1]; exact h2
+  · rw [h1]; simp [asm]
 
-/-- The three witnesses of DESIGN §7 C48 (all reproduced on the real package by harness/C48). -/
-theorem witness_raw :
-    (disasm ⟨0x0100, 0, 0, 7⟩ = .loadConstant 0 7 ∧ asm (.loadConstant 0 7) = some ⟨0, 0, 0, 7⟩) ∧
-    (disasm ⟨0x16, 0, 0, 9⟩ = .retA ∧ asm .retA = some ⟨0x16, 0, 0, 0⟩) ∧
-    (disasm ⟨0x28, 0, 0, 0xfffff004⟩ = .loadExtension 4 ∧ asm (.loadExtension 4) = some ⟨0x20, 0, 0, 0xfffff004⟩) := by
-  decide
+theorem raw_holds : RoundTripRawStatement := fun r hr _ => asm_disasm r hr
 
-theorem raw_full_false : ¬ RoundTripRawStatement := by
-  intro h
-  have := h ⟨0x0100, 0, 0, 7⟩ (by decide) (by decide)
-  exact absurd this (by decide)
+/-- `Disassemble` decodes `r` (rather than passing it through) exactly when `r` is canonical: the
+repair does not throw away any encoding that `Assemble` can produce. -/
+theorem disasm_decodes_iff (r : Raw) (hr : r.WF) : disasm r = disasmCore r ↔ canonRaw r = true :=
+  disasm_eq_core_iff r hr
+
+/-- The three former witnesses of DESIGN §7 C48 now satisfy the statement: they are passed through. -/
+example :
+    disasm ⟨0x0100, 0, 0, 7⟩ = .raw ⟨0x0100, 0, 0, 7⟩ ∧ disasm ⟨0x16, 0, 0, 9⟩ = .raw ⟨0x16, 0, 0, 9⟩ ∧
+    disasm ⟨0x28, 0, 0, 0xfffff004⟩ = .raw ⟨0x28, 0, 0, 0xfffff004⟩ ∧
+    disasm ⟨0x20, 0, 0, 0xfffff001⟩ = .raw ⟨0x20, 0, 0, 0xfffff001⟩ ∧
+    disasm ⟨0x16, 0, 0, 0⟩ = .retA ∧ disasm ⟨0x20, 0, 0, 0xfffff004⟩ = .loadExtension 4 := by decide
 
 /-! ### the property -/
 
@@ -215,18 +243,21 @@ def Statement : Prop := RoundTripTypedStatement ∧ RoundTripRawStatement
 
 theorem full_false : ¬ Statement := fun h => typed_full_false h.1
 
-/-- C48 restricted to the canonical forms (decidable predicates `canonTyped`, `canonRaw`). -/
+/-- C48: the raw half in full, the typed half restricted to the canonical values (decidable `canonTyped`). -/
 theorem holds_partial :
     (∀ (i : Instr) (r : Raw), i.WF → canonTyped i = true → asm i = some r → disasm r = i) ∧
-    (∀ r : Raw, r.WF → canonRaw r = true → asm (disasm r) = some r) :=
-  ⟨fun i r hi hc h => disasm_asm_of_canon i r hi hc h, fun r hr hc => asm_disasm_of_canon r hr hc⟩
+    RoundTripRawStatement :=
+  ⟨fun i r hi hc h => disasm_asm_partial i r hi hc h, raw_holds⟩
 
 /-- The canonical sets correspond: `Assemble` maps canonical typed values to canonical raw instructions and
 `Disassemble` maps every raw instruction to a canonical typed value. -/
 theorem canonical_correspondence :
-    (∀ (i : Instr) (r : Raw), i.WF → canonTyped i = true → asm i = some r → canonRaw r = true) ∧
-    (∀ r : Raw, r.WF → canonTyped (disasm r) = true) :=
-  ⟨canonRaw_asm, canonTyped_disasm⟩
+    (∀ (i : Instr) (r : Raw), i.WF → isRaw i = false → canonTyped i = true → asm i = some r → canonRaw r = true) ∧
+    (∀ r : Raw, r.WF → canonTyped (disasm r) = true) := by
+  refine ⟨canonRaw_asm, fun r hr => ?_⟩
+  rcases disasm_cases r with ⟨h1, _⟩ | ⟨h1, _⟩
+  · rw [h1]; exact canonTyped_disasm r hr
+  · rw [h1]; simp [canonTyped, h1, isRaw]
 
 /-! ### programs (`Assemble` / `Disassemble` of asm.go) -/
 
@@ -246,17 +277,16 @@ theorem disasmProg_asmProg (p : List Instr) (rs : List Raw)
     have h1 := hp i (by simp)
     have := ih rs' (fun j hj => hp j (by simp [hj])) hrs
     simp only [disasmProg, List.map_cons] at this ⊢
-    rw [this, disasm_asm_of_canon i r h1.1 h1.2 hr]
+    rw [this, disasm_asm_partial i r h1.1 h1.2 hr]
 
-theorem asmProg_disasmProg (rs : List Raw) (hp : ∀ r ∈ rs, r.WF ∧ canonRaw r = true) :
-    asmProg (disasmProg rs).1 = some rs := by
+/-- Program level, repaired: `Assemble(Disassemble(rs)) = rs` for every raw program. -/
+theorem asmProg_disasmProg (rs : List Raw) (hp : ∀ r ∈ rs, r.WF) : asmProg (disasmProg rs).1 = some rs := by
   induction rs with
   | nil => simp [disasmProg, asmProg]
   | cons r rest ih =>
-    have h1 := hp r (by simp)
     have := ih (fun j hj => hp j (by simp [hj]))
     simp only [disasmProg, List.map_cons, asmProg] at this ⊢
-    rw [asm_disasm_of_canon r h1.1 h1.2, this]
+    rw [asm_disasm r (hp r (by simp)), this]
 
 /-! ### non-vacuity -/
 
@@ -277,6 +307,6 @@ example : ([⟨0x00, 0, 0, 7⟩, ⟨0x61, 0, 0, 15⟩, ⟨0x28, 0, 0, 14⟩, ⟨
     (fun r => decide r.WF && canonRaw r && !isRaw (disasm r)) = true := by decide
 example : ([⟨0x0100, 0, 0, 7⟩, ⟨0x16, 0, 0, 9⟩, ⟨0x28, 0, 0, 0xfffff004⟩, ⟨0x20, 0, 0, 0xfffff001⟩, ⟨0x41, 0, 0, 0⟩,
     ⟨0xa0, 0, 0, 0⟩, ⟨0x0d, 0, 0, 0⟩, ⟨0x07, 1, 0, 0⟩] : List Raw).all
-    (fun r => decide r.WF && !canonRaw r && !isRaw (disasm r)) = true := by decide
+    (fun r => decide r.WF && !canonRaw r && isRaw (disasm r) && !isRaw (disasmCore r)) = true := by decide
 
 end NetVerif.Proofs.C48
